@@ -152,22 +152,14 @@ impl Vocab {
     }
 }
 
-/// canonical decomposition of the few accents used by the language tables (acute, grave, circumflex, diaeresis, tilde, cedilla, breve)
+/// canonical decomposition (base, mark) from the reference table generated from Python's `unicodedata`
+/// (`tools/gen_canon.py`): independent of the language tables under test
 pub fn decompose_char(c: char) -> Option<(char, char)> {
-    const T: &[(char, char, char)] = &[
-        ('á','a','\u{301}'),('é','e','\u{301}'),('í','i','\u{301}'),('ó','o','\u{301}'),('ú','u','\u{301}'),('ý','y','\u{301}'),
-        ('Á','A','\u{301}'),('É','E','\u{301}'),('Í','I','\u{301}'),('Ó','O','\u{301}'),('Ú','U','\u{301}'),
-        ('à','a','\u{300}'),('è','e','\u{300}'),('ì','i','\u{300}'),('ò','o','\u{300}'),('ù','u','\u{300}'),
-        ('À','A','\u{300}'),('È','E','\u{300}'),('Ù','U','\u{300}'),
-        ('â','a','\u{302}'),('ê','e','\u{302}'),('î','i','\u{302}'),('ô','o','\u{302}'),('û','u','\u{302}'),
-        ('Â','A','\u{302}'),('Ê','E','\u{302}'),('Î','I','\u{302}'),('Ô','O','\u{302}'),('Û','U','\u{302}'),
-        ('ä','a','\u{308}'),('ë','e','\u{308}'),('ï','i','\u{308}'),('ö','o','\u{308}'),('ü','u','\u{308}'),('ÿ','y','\u{308}'),
-        ('Ä','A','\u{308}'),('Ë','E','\u{308}'),('Ï','I','\u{308}'),('Ö','O','\u{308}'),('Ü','U','\u{308}'),('Ÿ','Y','\u{308}'),
-        ('ã','a','\u{303}'),('õ','o','\u{303}'),('ñ','n','\u{303}'),('Ã','A','\u{303}'),('Õ','O','\u{303}'),('Ñ','N','\u{303}'),
-        ('ç','c','\u{327}'),('Ç','C','\u{327}'),
-        ('ё','е','\u{308}'),('Ё','Е','\u{308}'),('й','и','\u{306}'),('Й','И','\u{306}'),
-    ];
-    T.iter().find(|e| e.0 == c).map(|e| (e.1, e.2))
+    let k = c as u32;
+    crate::canon_table::CANON_PAIRS.binary_search_by(|e| e.0.cmp(&k)).ok().and_then(|i| {
+        let e = crate::canon_table::CANON_PAIRS[i];
+        Some((char::from_u32(e.1)?, char::from_u32(e.2)?))
+    })
 }
 
 pub fn decompose(w: &str) -> String {
@@ -319,6 +311,30 @@ pub fn dist_cases(r: &mut Rng, exhaustive_len: usize, random_n: usize) -> Vec<Ca
     }
     for (i, ch) in ops.chunks(60).enumerate() {
         cases.push(Case { name: format!("distr-{}", i), lang: "none".to_string(), stream: "D-dist-long-short", ops: ch.to_vec() });
+    }
+    // exact fit: words whose length is exactly (or one off) the current matrix dimension minus the two border
+    // rows, on a fresh instance and after each of several growth steps (the dimension is tracked with the source's
+    // growth rule; the observation line carries the real dimension, so a wrong guess shows up as a divergence)
+    for i in 0..(random_n / 60).max(2).min(12) {
+        let mut ops = vec![];
+        let mut size = 22usize;
+        let k = r.range(2, DSYMS.len());
+        let word = |r: &mut Rng, n: usize| -> Vec<char> { (0..n).map(|_| DSYMS[r.below(k)].0).collect() };
+        for _ in 0..4 {
+            let fit = size - 2;
+            let (s1, s2, s3) = (r.range(1, 6), r.range(1, 6), r.range(1, 6));
+            for (la, lb) in [(fit, s1), (s2, fit), (fit, fit), (fit - 1, fit), (fit, fit - 1), (fit, 0), (0, fit), (s3, fit - 1)] {
+                let (a, b) = (word(r, la), word(r, lb));
+                ops.push(Op::Dist(a.clone(), cls(&a), b.clone(), cls(&b)));
+            }
+            let n = fit + 1 + r.below(6);
+            let small = r.range(0, 6);
+            let (a, b) = if r.chance(1, 2) { (word(r, n), word(r, small)) } else { (word(r, small), word(r, n)) };
+            ops.push(Op::Dist(a.clone(), cls(&a), b.clone(), cls(&b)));
+            size = (n + 2) + (n + 2) / 2;
+            if size > 130 { break; }
+        }
+        cases.push(Case { name: format!("distfit-{}", i), lang: "none".to_string(), stream: "D-dist-exact-fit", ops });
     }
     cases
 }
@@ -506,10 +522,35 @@ pub fn blank_title_cases(code: &str, r: &mut Rng, n: usize) -> Vec<Case> {
     cases
 }
 
+/// a store of close relatives of one word (the word, extensions, one-edit neighbours, a prefix) in random order,
+/// asked with the word plus / minus a letter: scratch state left by one candidate meets a candidate that resembles it
+pub fn relatives_case(code: &str, v: &Vocab, r: &mut Rng, name: String) -> Case {
+    let small: Vec<char> = if code == "ru" { vec!['а', 'б', 'в'] } else { vec!['a', 'b', 'c'] };
+    let mut base: Vec<char> = if r.chance(1, 2) { (0..r.range(2, 5)).map(|_| *r.pick(&small)).collect() } else { v.word(r).chars().take(r.range(3, 6)).collect() };
+    if base.is_empty() { base = vec![small[0], small[1]]; }
+    let letter = |r: &mut Rng| if r.chance(1, 2) { *r.pick(&small) } else { *r.pick(&v.letters) };
+    let ext = |r: &mut Rng, w: &Vec<char>, k: usize| { let mut x = w.clone(); for _ in 0..k { x.push(letter(r)); } x };
+    let edit = |r: &mut Rng, w: &Vec<char>| { let mut x = w.clone(); let i = r.below(x.len()); match r.below(3) { 0 => { x[i] = letter(r); } 1 => { x.insert(i, letter(r)); } _ => { if x.len() > 1 { x.remove(i); } } } x };
+    let mut family: Vec<Vec<char>> = vec![base.clone(), ext(r, &base, 1), ext(r, &base, 2), ext(r, &base, 3), edit(r, &base), base[..base.len() - 1].to_vec()];
+    let e2 = ext(r, &base, 2); family.push(edit(r, &e2));
+    family.retain(|w| !w.is_empty());
+    r.shuffle(&mut family);
+    let mut ops = vec![Op::New, Op::Limit(10)];
+    let n = r.range(2, 5).min(family.len());
+    for (i, w) in family.iter().take(n).enumerate() {
+        let t: String = w.iter().collect();
+        ops.push(Op::Add(i + 1, 1000 - 7 * i, if r.chance(1, 4) { format!("{} {}", t, v.word(r)) } else { t }));
+    }
+    let e1 = ext(r, &base, 1);
+    for qv in [ext(r, &base, 1), base.clone(), edit(r, &base), ext(r, &base, 2), edit(r, &e1)] { ops.push(Op::Search(qv.iter().collect())); }
+    Case { name, lang: code.to_string(), stream: "F-store-relatives", ops }
+}
+
 pub fn store_cases(code: &str, r: &mut Rng, n: usize) -> Vec<Case> {
     let v = vocab(code);
     let mut cases = vec![];
     for i in 0..n {
+        cases.push(relatives_case(code, &v, r, format!("relatives-{}-{}", code, i)));
         if i % 6 == 5 && i % 12 == 11 { cases.push(big_hit_case(code, r, format!("store-{}-{}", code, i))); continue; }
         let o = match i % 6 {
             0 => StoreGenOpts { max_records: 6, ops: 12, ties: false, small_alphabet: false, cache_stress: false },
